@@ -10,7 +10,10 @@
 (*        stream for an object of Go type `kind` whose exported fields are *)
 (*        the leaves w; tag = the tag the object reports; carried = the    *)
 (*        fields the bytes depend on at this point (derived from the real  *)
-(*        writer by changing one field at a time); size = Size() after it  *)
+(*        writer by changing one field at a time); size = Size() after it. *)
+(*        The law demands back `carried` AND the fields the reference      *)
+(*        format carries at this content (Profile!Demanded): a writer that *)
+(*        stops carrying a field in some state is answered by a rejected R *)
 (*  Whole via bytes   the same steps through ToBytesStep: the whole stream *)
 (*  Carry pack out    the stream after SetProfile / Write / Read of a pack *)
 (*  R  kind r cur     the real reader returned an object of Go type `kind` *)
@@ -66,7 +69,8 @@ TraceReset == /\ Step("Reset")
 TraceW ==
   /\ Step("W")
   /\ LET e == Trace[l] IN
-       /\ Write(e.fam, e.kind, e.tag, e.w, Range(e.carried), e.bytes)
+       /\ Range(e.carried) \subseteq DOMAIN e.w
+       /\ Write(e.fam, e.kind, e.tag, e.w, Demanded(e.kind, e.w, Range(e.carried)), e.bytes)
        /\ Has(e, "o") => ObjIs(e.o, e.kind, e.w)
        /\ e.size = Len(stream')
        /\ Strict => /\ e.kind \in KnownKinds
